@@ -1123,7 +1123,7 @@ class Interp:
                     return static
             if h is not None:
                 return BoundMethod(obj, None, name)
-            if getattr(obj, "open_fields", False) or obj.cls is None:
+            if obj.cls is None and not obj.closed:
                 raise Unsupported(f"contract view of {obj.kind} has no field {name!r}")
             raise self.mkraise(SExc(AttributeError, (f"{obj.kind!r} object has no attribute {name!r}",)))
         if isinstance(obj, SExc):
